@@ -162,6 +162,10 @@ class Prop:
         """None (use Hypothesis' shrinker) or an iterable of smaller cases."""
         return None
 
+    def finalize(self, coverage):
+        """Parent-side hook: add derived fields to the coverage dict of the evidence file."""
+        return None
+
     def signature(self, case):
         """Root-cause hint of a *shrunk* case (used to tell findings apart)."""
         return ""
